@@ -48,6 +48,9 @@ def structures(tier):
     # BSD subclasses (0x40c or any other 0x04xx) and the subclasses of the two helper classes when requested themselves
     sts.append({'kind': 'select', 'tid': False, 'proc': None, 'nc': 0, 'ns': 2, 's': [0x40c, 0x301]})
     sts.append({'kind': 'select', 'tid': False, 'proc': None, 'nc': 1, 'ns': 1, 's': [0x701], 'c': [4]})
+    for c0 in (4, 1, 0x1f):
+        for helper in (3, 7):
+            sts.append({'kind': 'select', 'tid': False, 'proc': None, 'nc': 1, 'ns': 1, 'c': [c0], 'shelper': helper})
     for s0 in (0x40c, 0x301, 0x701, None):
         sts.append({'kind': 'select', 'tid': False, 'proc': None, 'nc': 0, 'ns': 1, 's': [s0]})
         sts.append({'kind': 'select', 'tid': False, 'proc': None, 'nc': 1, 'ns': 1, 's': [s0], 'c': [1]})
@@ -159,7 +162,9 @@ def run(ctx, st):
     for i in range(st['ns']):
         s = ctx.int('s%d' % i, 16)
         v = (st.get('s') or [None] * st['ns'])[i]
-        if v is not None:
+        if st.get('shelper') is not None:
+            ctx.assume((s >> 8) == st['shelper'])           # any subclass of a helper class
+        elif v is not None:
             ctx.assume(s == v)
         else:
             ctx.assume(And((s >> 8) == DBG_BSD, s != 0x40c))
@@ -171,6 +176,7 @@ def run(ctx, st):
     try:
         got = _run(ctx, p, data, 'traces')
     except Exception as e:      # noqa
+        __import__('vxlib.symx.core', fromlist=['x']).proxy_rejected(e)
         ctx.check('C13/no-error', False, '%s: %s' % (type(e).__name__, e)); ctx.reach(); return
     pmap = {T1: (P1, 'procA'), T2: (P2, 'procB')}
 
@@ -211,6 +217,7 @@ def run_sequence(ctx, st, data):
         fresh.filter_class = list(st['classes'])
         b_ref = _run(ctx, fresh, data, second)
     except Exception as e:      # noqa
+        __import__('vxlib.symx.core', fromlist=['x']).proxy_rejected(e)
         ctx.check('C13/sequence/no-error', False, '%s: %s' % (type(e).__name__, e)); ctx.reach(); return
     L = 'C13/second-call-differs/' + st['seq'].replace(';', '-then-')
     ctx.check(L, len(b) == len(b_ref), 'second request returns %d items, a fresh parser %d' % (len(b), len(b_ref)))
